@@ -358,3 +358,45 @@ package swamp
 //@   ensures[value_read_under_the_guard] err == nil ==> calls("Treasure.GetContentInt64") == old(calls("Treasure.GetContentInt64")) + 1 && calls("Treasure.StartTreasureGuard") == old(calls("Treasure.StartTreasureGuard")) + 1
 //@   ensures[error_touches_nothing] err != nil ==> !incremented && calls("Treasure.Save") == old(calls("Treasure.Save"))
 //@   ensures[guard_released] calls("Treasure.ReleaseTreasureGuard") == old(calls("Treasure.ReleaseTreasureGuard")) + 1 && calledwith("Treasure.ReleaseTreasureGuard", 1, lastret("Treasure.StartTreasureGuard"))
+
+// ---------------------------------------------------------------------------------------
+// Property C16 (acknowledged writes survive eviction, auto-destroy and shutdown): the per-function ordering
+// conditions the lifecycle relies on. NOT the interleaving-level statement.
+//   DeleteTreasure   the swamp is auto-destroyed only if it holds no record when counted AFTER the delete
+//                    handler has run (a count taken before the delete says nothing about a record that an
+//                    acknowledged insert added meanwhile); a missing key is an error and touches nothing;
+//   Destroy          the closing flag -- which makes summoners wait instead of handing the swamp out -- is set
+//                    BEFORE the vigils are drained, the storage is destroyed only after the drain, and the
+//                    closed event is sent exactly once by the call that performs the teardown;
+//   idle close tick  (startCloseListener) the swamp is closed for idleness only if, under the close/write
+//                    mutex, no vigil is active, no close is in progress and (persistent swamps) no file
+//                    write is active.
+//@ trusted func (github.com/hydraide/hydraide/app/core/hydra/swamp/vigil.Vigil).WaitForActiveVigilsClosed(v)
+//@ trusted func (github.com/hydraide/hydraide/app/core/hydra/swamp/vigil.Vigil).HasActiveVigils(v) (b)
+//@ trusted func (github.com/hydraide/hydraide/app/core/hydra/swamp/vigil.Vigil).CeaseVigil(v)
+//@ trusted func (github.com/hydraide/hydraide/app/core/hydra/swamp/chronicler.Chronicler).Destroy(c)
+//@ trusted func (github.com/hydraide/hydraide/app/core/hydra/swamp/beacon.Beacon).Count(b) (n)
+//@   ensures n >= 0
+//@ trusted func (github.com/hydraide/hydraide/app/core/hydra/swamp/beacon.Beacon).IsExists(b, key) (ok)
+
+//@ func (*swamp).Destroy(s)
+//@   property C16 C17
+//@   modifies *
+//@   before Vigil.WaitForActiveVigilsClosed [inflow_is_stopped_before_the_vigils_are_drained] s.closing == 1
+//@   before Chronicler.Destroy [storage_is_destroyed_only_after_the_drain] calls("Vigil.WaitForActiveVigilsClosed") == old(calls("Vigil.WaitForActiveVigilsClosed")) + 1
+//@   ensures[closing_flag_set] s.closing == 1
+//@   ensures[teardown_reports_closed_once] calls("swamp.sendClosedEvent") <= old(calls("swamp.sendClosedEvent")) + 1 && (calls("Vigil.WaitForActiveVigilsClosed") > old(calls("Vigil.WaitForActiveVigilsClosed")) ==> calls("swamp.sendClosedEvent") == old(calls("swamp.sendClosedEvent")) + 1)
+//@   ensures[second_destroy_is_a_no_op] old(s.destroyed) ==> calls("Vigil.WaitForActiveVigilsClosed") == old(calls("Vigil.WaitForActiveVigilsClosed")) && calls("swamp.sendClosedEvent") == old(calls("swamp.sendClosedEvent"))
+
+//@ func (*swamp).DeleteTreasure(s, key, shadowDelete) (err)
+//@   property C16 C06
+//@   modifies *
+//@   before Beacon.Count [emptiness_is_judged_after_the_delete] calls("swamp.deleteHandler") == old(calls("swamp.deleteHandler")) + 1
+//@   before swamp.Destroy [destroyed_only_if_empty_after_the_delete] calls("swamp.deleteHandler") == old(calls("swamp.deleteHandler")) + 1 && calls("Beacon.Count") > old(calls("Beacon.Count")) && lastret("Beacon.Count") == 0
+//@   ensures[missing_key_is_an_error_and_touches_nothing] calls("Beacon.IsExists") > old(calls("Beacon.IsExists")) && !lastretb("Beacon.IsExists") ==> err != nil && calls("swamp.deleteHandler") == old(calls("swamp.deleteHandler")) && calls("swamp.Destroy") == old(calls("swamp.Destroy"))
+//@   ensures[existing_key_is_deleted_once] err == nil ==> calls("swamp.deleteHandler") == old(calls("swamp.deleteHandler")) + 1 && calledwith("swamp.deleteHandler", 1, key)
+
+//@ func (*swamp).startCloseListener$1()
+//@   property C16
+//@   modifies *
+//@   before swamp.Close [idle_close_only_without_active_vigils_and_not_while_closing] calls("Vigil.HasActiveVigils") > old(calls("Vigil.HasActiveVigils")) && !lastretb("Vigil.HasActiveVigils") && s.closing == 0 && (s.inMemorySwamp == 1 || s.isFilesystemWritingActive == 0)
